@@ -110,6 +110,19 @@ def run(ctx, res):
         else:
             res.violation(rid1, "empty-filter", "the EMPTY filter drops %s%s: EMPTY must contribute nothing wherever it is written, and "
                           "nothing else may be dropped" % (sorted(drops), (" under extra conditions %s" % extra[:2]) if extra else ""), cl.loc())
+        # `EMPTY contributes nothing` wherever it is written - also under a name (`x=EMPTY`, `x?=EMPTY`): those assignment
+        # variants carry a symbol reference too, and a filter that only looks at the plain one leaves `S: EMPTY A` behind, a
+        # production that can never be reduced (D46)
+        dropped_variants = {k[0] for k in drops if k}
+        carrying = {"GrammarSymbolRef", "PlainAssignment", "BoolAssignment"}
+        adt = F.adts.get("rustemo_compiler::lang::rustemo_actions::Assignment")
+        present = {v["name"] for v in adt["variants"]} & carrying if adt else set()
+        if present and ok:
+            if present <= dropped_variants:
+                res.ok(rid1, "empty-filter-named", cl.loc(), "all reference-carrying assignment variants are filtered")
+            else:
+                res.violation(rid1, "empty-filter-named", "the EMPTY filter looks at plain references only; `x=EMPTY` / `x?=EMPTY` (%s) "
+                              "keep EMPTY in the right-hand side: `S: x=EMPTY 'a' | 'b';` rejects `a`" % sorted(present - dropped_variants), cl.loc())
     names = {callee(t) for _, t in ep.calls()}
     nfilter = len([1 for _, t in ep.calls() if callee(t).endswith("Iterator::filter")])
     bad = [mir.short(n) for n in names if any(n.endswith(k) for k in DROP) and not n.endswith("Iterator::filter")]
